@@ -66,3 +66,21 @@ Fixpoint last_index_from (name : str) (ms : list wmem) (i : nat) (acc : option n
   | m :: r => last_index_from name r (S i) (if str_eqb (w_name m) name then Some i else acc)
   end.
 Definition last_index (name : str) (ms : list wmem) : option nat := last_index_from name ms O None.
+
+(** * The property's judgement of a listing and of a lookup
+
+    [listed_ok w name size owner group mtime]: one entry of getnames()/getmembers()
+    is the member that was written.  [lookup_ok ws n r]: [getmember(n)] returned
+    the index of the last member called [n], or KeyError when there is none. *)
+Local Open Scope Z_scope.
+Definition listed_ok (w : wmem) (name : str) (size owner group mtime : Z) : bool :=
+  str_eqb (w_name w) name
+  && (Z.of_N (w_size w) =? size) && (Z.of_N (w_owner w) =? owner)
+  && (Z.of_N (w_group w) =? group) && (Z.of_N (w_mtime w) =? mtime).
+
+Definition lookup_ok (ws : list wmem) (n : str) (r : result nat) : bool :=
+  match last_index n ws, r with
+  | Some i, Ok j => Nat.eqb i j
+  | None, Err KeyError => true
+  | _, _ => false
+  end.
